@@ -54,6 +54,7 @@ func runC19(w *World, r *Report) {
 	r.Rule("C19-R8", "bookkeeping read-modify-write is atomic", "a value written into collectionNames.{data,excludeData,extraInfos,nameMapping} that derives from a read of the same table was read in the same function under the same lock span as the write (no snapshot taken earlier is written back)", 4)
 	c19AtomicRMW(w, r, "C19-R8")
 	c19RegisteredBeforeStart(w, r, "C19-R9")
+	c10OneCriticalSection(w, r, "C19-R10")
 	r.Rule("C19-R6", "task id validated before use as a key segment", "validCreateRequest rejects a task id containing '/' (and the relative segments) with an error", 1)
 
 	hr := w.Func(pkgServer, "CDCServer", "handleRequest")
